@@ -68,7 +68,7 @@ Definition bn_beta_bwd (g : list R) : R := vsum g.
 
 (* ---- vector p-norm of one lane, linalg/ops.py (Norm) ---- *)
 Definition sgn (x : R) : R := if Rlt_dec 0 x then 1 else if Rlt_dec x 0 then -1 else 0.
-(* |x| ** p with NumPy's 0 ** p = 0 (p <> 0) *)
+(* |x| ** p with NumPy's 0 ** p = 0 for p > 0 (for p < 0 NumPy gives inf: lanes containing zeros are then outside the model; the harness uses zero-free lanes) *)
 Definition abspow (x p : R) : R := if Req_EM_T x 0 then (if Req_EM_T p 0 then 1 else 0) else Rpower (Rabs x) p.
 Definition vnorm1 (l : list R) : R := vsum (map Rabs l).
 Definition vnorm2 (l : list R) : R := sqrt (vsum (map (fun x => x ^ 2) l)).
